@@ -174,9 +174,72 @@ theorem C18_accept (C : Crypto) (card : MatrixCard) (hc : card.WF) (count seed :
   · rw [hver]; simp [MCVerifier.intoProof]
 
 /-- **reject**: if the client enters any other digit sequence (of any length) the proof it obtains is
-    rejected — unless the two RC4 ciphertexts, which are different because RC4 encryption from a fixed
-    state is injective, form an explicit HMAC collision under the key `MD5(seed | session key)` -/
+    rejected — unless THE two RC4 ciphertexts form an HMAC collision under the key
+    `MD5(seed | session key)`. The pair is pinned: `enc` is the RC4 encryption (from the fresh state
+    `r0` keyed by that MD5) of the digits printed at the challenged cells, `enc'` the RC4 encryption
+    (from the same state) of what was entered; they are different byte strings because RC4 encryption
+    from a fixed state is injective; the proof the client obtains is `HMAC(k, enc')`, the server
+    expects `HMAC(k, enc)`; and acceptance is possible only if `HMAC(k, enc) = HMAC(k, enc')` for that
+    very pair — not for some unrelated pair of messages (which, by pigeonhole, always exists). -/
 theorem C18_reject (C : Crypto) (card : MatrixCard) (hc : card.WF) (count seed : Nat) (K : Bytes)
+    (hcount : count ≤ card.width * card.height) :
+    ∃ v0 r0, MCVerifier.new C count card.height seed card.width K = .ok v0 ∧
+      Rc4.new (C.md5 (leN 8 seed ++ K)) = .ok r0 ∧
+      ∀ cells, ReadsOffCard card v0 cells → ∀ entered : Bytes, entered ≠ cells.flatten →
+        ∃ v1' r1 enc r1' enc', v0.enterValues entered = .ok v1' ∧
+          r0.apply cells.flatten = .ok (r1, enc) ∧
+          r0.apply entered = .ok (r1', enc') ∧
+          v1'.intoProof C = C.hmac (C.md5 (leN 8 seed ++ K)) enc' ∧
+          enc ≠ enc' ∧
+          (verifyMatrixCardHash C card count seed K (v1'.intoProof C) = .ok false ∨
+           C.hmac (C.md5 (leN 8 seed ++ K)) enc = C.hmac (C.md5 (leN 8 seed ++ K)) enc') := by
+  obtain ⟨r0, r1, enc, hr0, hs0, hnew, ha, hver⟩ := verify_pipeline C card hc count seed K hcount
+  obtain ⟨f1, _, f3⟩ := coords_facts card.width card.height count seed hc.small hcount
+  refine ⟨_, r0, hnew, hr0, fun cells hcells entered hne => ?_⟩
+  have he := ReadsOffCard.eq card hc _ cells rfl rfl f1 f3 hcells
+  simp only at he
+  obtain ⟨r1', enc', ha', _, _⟩ := MC.apply_ok r0 entered hs0
+  have hdiff : enc ≠ enc' := fun heq =>
+    hne ((MC.apply_injective r0 _ _ r1 r1' enc enc' ha ha' heq).symm.trans he.symm)
+  refine ⟨_, r1, enc, r1', enc', MCVerifier.enterValues_eq _ _ r1' enc' ha', by rw [he]; exact ha, ha',
+    by simp [MCVerifier.intoProof], hdiff, ?_⟩
+  rw [hver]
+  simp only [MCVerifier.intoProof, List.nil_append]
+  by_cases hh : C.hmac (C.md5 (leN 8 seed ++ K)) enc = C.hmac (C.md5 (leN 8 seed ++ K)) enc'
+  · exact Or.inr hh
+  · exact Or.inl (by simp [hh])
+
+/-- **reject, decision form**: with the same pinned pair, the server's verdict on the proof made from
+    any other digit sequence is exactly "do THE two ciphertexts collide under HMAC": it never panics,
+    and it is `true` iff `HMAC(k, enc) = HMAC(k, enc')`. Under any HMAC without a collision on that
+    pair the verdict is `false`. -/
+theorem C18_reject_iff (C : Crypto) (card : MatrixCard) (hc : card.WF) (count seed : Nat) (K : Bytes)
+    (hcount : count ≤ card.width * card.height) :
+    ∃ v0 r0, MCVerifier.new C count card.height seed card.width K = .ok v0 ∧
+      Rc4.new (C.md5 (leN 8 seed ++ K)) = .ok r0 ∧
+      ∀ cells, ReadsOffCard card v0 cells → ∀ entered : Bytes, entered ≠ cells.flatten →
+        ∃ v1' r1 enc r1' enc' b, v0.enterValues entered = .ok v1' ∧
+          r0.apply cells.flatten = .ok (r1, enc) ∧
+          r0.apply entered = .ok (r1', enc') ∧
+          enc ≠ enc' ∧
+          verifyMatrixCardHash C card count seed K (v1'.intoProof C) = .ok b ∧
+          (b = true ↔
+            C.hmac (C.md5 (leN 8 seed ++ K)) enc = C.hmac (C.md5 (leN 8 seed ++ K)) enc') := by
+  obtain ⟨r0, r1, enc, hr0, hs0, hnew, ha, hver⟩ := verify_pipeline C card hc count seed K hcount
+  obtain ⟨f1, _, f3⟩ := coords_facts card.width card.height count seed hc.small hcount
+  refine ⟨_, r0, hnew, hr0, fun cells hcells entered hne => ?_⟩
+  have he := ReadsOffCard.eq card hc _ cells rfl rfl f1 f3 hcells
+  simp only at he
+  obtain ⟨r1', enc', ha', _, _⟩ := MC.apply_ok r0 entered hs0
+  have hdiff : enc ≠ enc' := fun heq =>
+    hne ((MC.apply_injective r0 _ _ r1 r1' enc enc' ha ha' heq).symm.trans he.symm)
+  refine ⟨_, r1, enc, r1', enc', _, MCVerifier.enterValues_eq _ _ r1' enc' ha', by rw [he]; exact ha, ha',
+    hdiff, hver _, ?_⟩
+  simp [MCVerifier.intoProof]
+
+/-- the earlier, weaker form of `C18_reject` (collision pair existentially quantified, not pinned) is
+    implied by the pinned one; kept only so that nothing that was stated before is lost -/
+theorem C18_reject_unpinned (C : Crypto) (card : MatrixCard) (hc : card.WF) (count seed : Nat) (K : Bytes)
     (hcount : count ≤ card.width * card.height) :
     ∃ v0, MCVerifier.new C count card.height seed card.width K = .ok v0 ∧
       ∀ cells, ReadsOffCard card v0 cells → ∀ entered : Bytes, entered ≠ cells.flatten →
@@ -184,20 +247,10 @@ theorem C18_reject (C : Crypto) (card : MatrixCard) (hc : card.WF) (count seed :
           (verifyMatrixCardHash C card count seed K (v1'.intoProof C) = .ok false ∨
            ∃ m₁ m₂, m₁ ≠ m₂ ∧
              C.hmac (C.md5 (leN 8 seed ++ K)) m₁ = C.hmac (C.md5 (leN 8 seed ++ K)) m₂) := by
-  obtain ⟨r0, r1, enc, hr0, hs0, hnew, ha, hver⟩ := verify_pipeline C card hc count seed K hcount
-  obtain ⟨f1, _, f3⟩ := coords_facts card.width card.height count seed hc.small hcount
-  refine ⟨_, hnew, fun cells hcells entered hne => ?_⟩
-  have he := ReadsOffCard.eq card hc _ cells rfl rfl f1 f3 hcells
-  simp only at he
-  obtain ⟨r1', enc', ha', _, _⟩ := MC.apply_ok r0 entered hs0
-  refine ⟨_, MCVerifier.enterValues_eq _ _ r1' enc' ha', ?_⟩
-  have hdiff : enc ≠ enc' := fun heq =>
-    hne ((MC.apply_injective r0 _ _ r1 r1' enc enc' ha ha' heq).symm.trans he.symm)
-  rw [hver]
-  simp only [MCVerifier.intoProof, List.nil_append]
-  by_cases hh : C.hmac (C.md5 (leN 8 seed ++ K)) enc = C.hmac (C.md5 (leN 8 seed ++ K)) enc'
-  · exact Or.inr ⟨enc, enc', hdiff, hh⟩
-  · exact Or.inl (by simp [hh])
+  obtain ⟨v0, r0, hnew, _, h⟩ := C18_reject C card hc count seed K hcount
+  refine ⟨v0, hnew, fun cells hcells entered hne => ?_⟩
+  obtain ⟨v1', _, enc, _, enc', he, _, _, _, hd, hor⟩ := h cells hcells entered hne
+  exact ⟨v1', he, hor.imp id fun hh => ⟨enc, enc', hd, hh⟩⟩
 
 /-! non-vacuity: concrete cards, geometries and seeds -/
 
@@ -227,5 +280,24 @@ example (C : Crypto) (K : Bytes) : True := by
   trivial
 /-- the largest geometry and a full-length challenge are covered -/
 example : (255 * 1 ≤ 255) ∧ (255 ≤ 255 * 1) := by decide
+
+/-- with an HMAC that is injective in the message (here: the identity on the message) the collision
+    disjunct of `C18_reject` is impossible, so the theorem does force rejection: on the example card
+    every wrong entry is refused -/
+example (K : Bytes) (entered : Bytes) :
+    let C : Crypto := ⟨fun _ => [], fun _ m => m, fun _ => List.replicate 16 0⟩
+    ∀ v0 cells, MCVerifier.new C 3 exampleCard.height 7 exampleCard.width K = .ok v0 →
+      ReadsOffCard exampleCard v0 cells → entered ≠ cells.flatten →
+      ∃ v1', v0.enterValues entered = .ok v1' ∧
+        verifyMatrixCardHash C exampleCard 3 7 K (v1'.intoProof C) = .ok false := by
+  intro C v0 cells hv hcells hne
+  obtain ⟨v0', r0, hnew, _, h⟩ := C18_reject C exampleCard exampleCard_wf 3 7 K (by decide)
+  rw [hv] at hnew; injection hnew with hnew; subst hnew
+  obtain ⟨v1', _, enc, _, enc', he, _, _, _, hd, hor⟩ := h cells hcells entered hne
+  exact ⟨v1', he, hor.resolve_right hd⟩
+
+#print axioms C18_reject
+#print axioms C18_reject_iff
+#print axioms C18_reject_unpinned
 
 end WowSrp
